@@ -1,1 +1,45 @@
-fn main() { println!("{}", candid::idl_hash("a")); }
+//! `mc <PROPERTY> --tier quick|thorough` : one bounded-exhaustive check per property.
+//! `mc <PROPERTY> --replay <file>`      : re-execute one recorded case.
+use mclib::engine::{install_quiet_panic_hook, Tier};
+
+mod checks;
+
+fn main() {
+    let args: Vec<String> = std::env::args().collect();
+    if args.len() < 2 {
+        eprintln!("usage: mc <C01..C20|selftest> [--tier quick|thorough] [--replay file]");
+        std::process::exit(2);
+    }
+    let id = args[1].clone();
+    let mut tier = match std::env::var("VERIF_TIER").as_deref() {
+        Ok("thorough") => Tier::Thorough,
+        _ => Tier::Quick,
+    };
+    let mut replay: Option<String> = None;
+    let mut rest: Vec<String> = vec![];
+    let mut i = 2;
+    while i < args.len() {
+        match args[i].as_str() {
+            "--tier" => {
+                i += 1;
+                tier = match args.get(i).map(|s| s.as_str()) {
+                    Some("thorough") => Tier::Thorough,
+                    Some("quick") => Tier::Quick,
+                    _ => {
+                        eprintln!("bad --tier");
+                        std::process::exit(2)
+                    }
+                };
+            }
+            "--replay" => {
+                i += 1;
+                replay = args.get(i).cloned();
+            }
+            other => rest.push(other.to_string()),
+        }
+        i += 1;
+    }
+    install_quiet_panic_hook();
+    let code = checks::dispatch(&id, tier, replay.as_deref(), &rest);
+    std::process::exit(code);
+}
